@@ -20,12 +20,13 @@ fn main() {
     let root = rng::root_seed();
     let workers = util::num_workers();
     let scale: u64 = std::env::var("VERIF_SCALE").ok().and_then(|s| s.parse().ok()).unwrap_or(1);
-    let n = if tier == "thorough" { 1_200_000 * scale } else { 30_000 * scale };
+    let n = util::runs_override(if tier == "thorough" { 1_200_000 * scale } else { 30_000 * scale });
     println!("C11 tier={tier} seed={root} workers={workers}");
     let start = Instant::now();
     let b = histsim::batch(root, n, workers);
     let wall = start.elapsed().as_secs_f64();
     println!("sim-hist: {} histories ({} fault-injecting), {} requests, {} compared with a fresh state, {} inconclusive, {} violations, {:.1}s", b.histories, b.faulted_histories, b.requests, b.requests_compared, b.inconclusive, b.violations.len(), wall);
+    util::dump_hashes("sim-hist", &b.hashes);
     if b.determinism_mismatches > 0 {
         eprintln!("HARNESS ERROR: determinism sample mismatch ({} of {})", b.determinism_mismatches, b.determinism_reexecuted);
         std::process::exit(2);
